@@ -161,6 +161,8 @@ class Engine(ExprMixin, CallMixin, StmtMixin):
         return T.parse_ty(s, al)
 
     def fresh_of(self, ty, hint):
+        if isinstance(ty, T.Multi):
+            return T.sv_multi([self.fresh_of(t, f"{hint}_{i}") for i, t in enumerate(ty.ts)])
         if isinstance(ty, T.ObjMap):
             return self.om_fresh(ty, hint)
         if isinstance(ty, T.Obj):
@@ -304,6 +306,11 @@ class Engine(ExprMixin, CallMixin, StmtMixin):
             return T.sv_real(T.to_real(self.unopt(self.ev(e.args[0], p), p, "spec")))
         if fn == "local":        # local("x"): the function's local variable x at the normal exit (postconditions only)
             nm = e.args[0].value if e.args and isinstance(e.args[0], ast.Constant) else None
+            if self.cx.locals_env is not None and (nm not in self.cx.locals_env or self.cx.locals_env[nm].ty == T.NONE) and len(e.args) == 2 \
+                    and isinstance(e.args[1], ast.Constant):
+                # local("x", "Type"): on an exit path that never bound x the clause talks about an arbitrary value of that type
+                # (write the clause so that it is guarded by the condition under which x exists)
+                return self.fresh_of(self.parse_ty(e.args[1].value), "unbound_" + nm)
             if self.cx.locals_env is None or nm not in self.cx.locals_env:
                 raise ContractError(f"local({nm!r}) is not available here")
             return self.cx.locals_env[nm]
